@@ -38,8 +38,22 @@ func eqAff(x, y *big.Int, p rsm2.Point) bool {
 		return false
 	}
 	ex, ey := p.Affine()
-	return x.Cmp(ex) == 0 && y.Cmp(ey) == 0
+	ok := x.Cmp(ex) == 0 && y.Cmp(ey) == 0
+	if ok && x.Sign() == 0 && y.Sign() == 0 {
+		// the coordinates a call returns are the caller's: big.Int arithmetic is done in place all over (Sm2Verify itself
+		// computes x.Add(x, e) on a returned coordinate), so a returned (0,0) is scribbled on here - a result that shares
+		// its numbers with the other coordinate or with later results shows up at once or at the next infinity
+		x.SetInt64(0x5a5a5a)
+		if y.Sign() != 0 {
+			return false
+		}
+		y.SetInt64(0xa5a5)
+		infinityResultsScribbled++
+	}
+	return ok
 }
+
+var infinityResultsScribbled int
 
 // xZero returns the finite curve point (0, sqrt(b)): the only curve points with a zero coordinate. The curve has
 // prime order, so no point has y = 0; p = 3 mod 4, so sqrt(b) = b^((p+1)/4).
